@@ -259,7 +259,7 @@ func AnalyzeLoop(P *Program, fn *ssa.Function, opts *AnalyzeOpts) (*LoopStep, er
 		params = append(params, in.paramVal(name, p.Type(), opts))
 	}
 	f := &frame{in: in, fn: fn, env: map[ssa.Value]Val{}, out: map[int]*State{}, bc: map[edgeKey]Bit{},
-		local: map[int]Bit{}, live: map[int]bool{}, rpoIx: map[int]int{}, panicIf: U.B0, refs: map[int]map[*Source]*BV{}}
+		local: map[int]Bit{}, live: map[int]bool{}, rpoIx: map[int]int{}, panicIf: U.B0, refs: map[int]map[*Source]*BV{}, facts: map[int]*factSet{}}
 	for i, p := range fn.Params {
 		f.env[p] = params[i]
 	}
